@@ -66,7 +66,7 @@ fn le_words(b: &[u8], w: usize) -> Vec<u64> {
 }
 
 /// Build the subject `kind` from (seed, pre-reads): its two texts and its secrets.
-fn subject(kind: usize, seed: &[u8], reads: usize, half: bool, p: &mut Prng) -> Subject {
+fn subject(kind: usize, seed: &[u8], reads: usize, half: bool, via_cf: bool, p: &mut Prng) -> Subject {
     let mut secrets: Vec<u64> = Vec::new();
     let mut add = |v: &[u64]| secrets.extend_from_slice(v);
     match kind {
@@ -80,6 +80,7 @@ fn subject(kind: usize, seed: &[u8], reads: usize, half: bool, p: &mut Prng) -> 
             let mut c = g.clone();
             let outs: Vec<u64> = (0..16).map(|_| c.next_u32() as u64).collect();
             add(&outs);
+            if via_cf { let mut d = rand_xorshift::XorShiftRng::from_seed([9u8; 16]); d.clone_from(&g); g = d; }
             Subject { name: "XorShiftRng", texts: fmt_both(&g), secrets }
         }
         1 | 2 => {
@@ -95,10 +96,12 @@ fn subject(kind: usize, seed: &[u8], reads: usize, half: bool, p: &mut Prng) -> 
             let outs: Vec<u64> = (0..32).map(|_| c.next_u32() as u64).collect();
             add(&outs);
             if kind == 1 {
+                if via_cf { let mut d = rand_hc::Hc128Rng::from_seed([0u8; 32]); d.clone_from(&g); g = d; }
                 Subject { name: "Hc128Rng", texts: fmt_both(&g), secrets }
             } else {
                 let mut b = BlockRng::<rand_hc::Hc128Core>::from_seed(s);
                 for _ in 0..reads { b.next_u32(); }
+                if via_cf { let mut d = rand_hc::Hc128Core::from_seed([0u8; 32]); d.clone_from(&b.core); b.core = d; }
                 Subject { name: "Hc128Core", texts: fmt_both(&b.core), secrets }
             }
         }
@@ -115,10 +118,12 @@ fn subject(kind: usize, seed: &[u8], reads: usize, half: bool, p: &mut Prng) -> 
             let outs: Vec<u64> = (0..512).map(|_| c.next_u32() as u64).collect();
             add(&outs);
             if kind == 3 {
+                if via_cf { let mut d = rand_isaac::IsaacRng::from_seed([0u8; 32]); d.clone_from(&g); g = d; }
                 Subject { name: "IsaacRng", texts: fmt_both(&g), secrets }
             } else {
                 let mut b = BlockRng::<rand_isaac::isaac::IsaacCore>::from_seed(s);
                 for _ in 0..reads { b.next_u32(); }
+                if via_cf { let mut d = rand_isaac::isaac::IsaacCore::from_seed([0u8; 32]); d.clone_from(&b.core); b.core = d; }
                 Subject { name: "IsaacCore", texts: fmt_both(&b.core), secrets }
             }
         }
@@ -139,10 +144,12 @@ fn subject(kind: usize, seed: &[u8], reads: usize, half: bool, p: &mut Prng) -> 
             add(&outs.iter().map(|v| v >> 32).collect::<Vec<_>>());
             add(&outs.iter().map(|v| v & 0xffff_ffff).collect::<Vec<_>>());
             if kind == 5 {
+                if via_cf { let mut d = rand_isaac::Isaac64Rng::from_seed([0u8; 32]); d.clone_from(&g); g = d; }
                 Subject { name: "Isaac64Rng", texts: fmt_both(&g), secrets }
             } else {
                 let mut b = BlockRng64::<rand_isaac::isaac64::Isaac64Core>::from_seed(s);
                 for _ in 0..reads { b.next_u64(); }
+                if via_cf { let mut d = rand_isaac::isaac64::Isaac64Core::from_seed([0u8; 32]); d.clone_from(&b.core); b.core = d; }
                 Subject { name: "Isaac64Core", texts: fmt_both(&b.core), secrets }
             }
         }
@@ -153,13 +160,17 @@ fn subject(kind: usize, seed: &[u8], reads: usize, half: bool, p: &mut Prng) -> 
             let mut g = rand_jitter::JitterRng::new_with_timer(timer.closure());
             g.set_rounds(*p.pick(&[1u8, 2, 3]));
             let mut outs = Vec::new();
-            for _ in 0..(reads % 4) { outs.push(g.next_u64()); }
+            // `reads` draws in a fixed pattern of widths; the caller observes the text
+            // at many different numbers of draws (the collector's private memory index
+            // and the pending half change with every draw)
+            for k in 0..reads { if k % 3 == 2 { outs.push(g.next_u64()); } else { outs.push(g.next_u32() as u64); } }
             if half { outs.push(g.next_u32() as u64); }
             add(&outs);
             add(&[g.verif_pool(), g.verif_pool() >> 32, g.verif_pool() & 0xffff_ffff]);
             let mut c = g.clone();
             let v = c.next_u64();
             add(&[v, v >> 32, v & 0xffff_ffff]);
+            if via_cf { let mut d = rand_jitter::JitterRng::new_with_timer(timer.closure()); d.next_u32(); d.clone_from(&g); g = d; }
             Subject { name: "JitterRng", texts: fmt_both(&g), secrets }
         }
     }
@@ -167,7 +178,43 @@ fn subject(kind: usize, seed: &[u8], reads: usize, half: bool, p: &mut Prng) -> 
 
 pub const SUBJECTS: [&str; 8] = ["XorShiftRng", "Hc128Rng", "Hc128Core", "IsaacRng", "IsaacCore", "Isaac64Rng", "Isaac64Core", "JitterRng"];
 
+/// two JitterRng on different timers, same operation pattern: the text is
+/// compared after EVERY draw (hundreds of observation points per instance)
+fn jitter_walk(sub: &str, id: u64, r: &mut Report) {
+    let mut p = Prng::new(id);
+    let mk = |p: &mut Prng| {
+        let cls = *p.pick(&[0usize, 8, 11]);
+        let t = ScriptedTimer::new(gen_script(p, cls, 300), p.u64());
+        let mut g = rand_jitter::JitterRng::new_with_timer(t.closure());
+        g.set_rounds(1);
+        g
+    };
+    let (mut a, mut b) = (mk(&mut p), mk(&mut p));
+    let first = fmt_both(&a);
+    for k in 0..400 {
+        match k % 5 { 0 | 1 | 3 => { a.next_u32(); b.next_u32(); } 2 => { a.next_u64(); b.next_u64(); } _ => { a.timer_stats(true); b.timer_stats(true); } }
+        let (ta, tb) = (fmt_both(&a), fmt_both(&b));
+        r.eval();
+        if ta != tb || ta != first {
+            r.violation("JitterRng:debug_depends_on_state".into(), sub, id, json!({"after_draws": k + 1, "debug_a": ta.0, "debug_b": tb.0, "debug_fresh": first.0}));
+            return;
+        }
+        let secrets = [a.verif_pool(), a.verif_pool() >> 32, a.verif_pool() & 0xffff_ffff];
+        for t in numeric_tokens(&ta.0) {
+            if t > PUBLIC_MAX && secrets.contains(&t) {
+                r.violation("JitterRng:debug_leaks_secret_word".into(), sub, id, json!({"after_draws": k + 1, "token": hx64(t), "debug": ta.0}));
+                return;
+            }
+        }
+    }
+    r.covn("jitter_walk_observations", 800);
+    r.distinct(hkey(&[&"jitter_walk", &id]));
+}
+
 fn case(sub: &str, id: u64, r: &mut Report) {
+    if sub == "jitter_walk" {
+        return jitter_walk(sub, id, r);
+    }
     let mut p = Prng::new(id);
     let kind = p.below(8) as usize;
     // same public read position for both instances
@@ -201,8 +248,13 @@ fn case(sub: &str, id: u64, r: &mut Report) {
     let reads = if special { (id / 6 % 4) as usize } else { reads };
     let half = if special { false } else { half };
     let seed_b = p.bytes(32);
-    let a = subject(kind, &seed_a, reads, half, &mut p);
-    let b = subject(kind, &seed_b, reads, half, &mut p);
+    let via_cf = !special && p.chance(1, 4);
+    // JitterRng: observation after 0..600 draws (an index that returns to a given
+    // value about once in 2048 memory accesses)
+    let reads = if kind == 7 && !special { p.below(600) as usize } else { reads };
+    let a = subject(kind, &seed_a, reads, half, via_cf, &mut p);
+    let b = subject(kind, &seed_b, reads, half, via_cf, &mut p);
+    if via_cf { r.cov("via_clone_from"); }
     let desc = json!({"type": a.name, "seed_a": hex(&seed_a), "seed_b": hex(&seed_b), "native_reads_before": reads, "half_word_read": half});
     r.eval();
     if a.texts != b.texts {
@@ -215,7 +267,7 @@ fn case(sub: &str, id: u64, r: &mut Report) {
     // types without any public read position: also independent of the history
     if matches!(kind, 0 | 2 | 4 | 6 | 7) {
         let other_reads = reads + 1 + p.below(40) as usize;
-        let c = subject(kind, &seed_a, other_reads, !half, &mut p);
+        let c = subject(kind, &seed_a, other_reads, !half, via_cf, &mut p);
         r.eval();
         if c.texts != a.texts {
             let mut d = desc.clone();
@@ -259,9 +311,14 @@ pub fn run(ctx: &Ctx, only: Option<&Only>) -> Report {
     let secs = if ctx.tier_thorough { ctx.budget_s } else { 0.0 };
     let mut total = drive(ctx, "pairs", 16_000, secs, |id, r| case("pairs", id, r));
     total.merge(drive(ctx, "special", 2_000, 0.0, |id, r| case("special", id, r)));
+    total.merge(drive(ctx, "jitter_walk", 160, 0.0, |id, r| case("jitter_walk", id, r)));
+    total.floor("jitter_walk_observations", 100_000);
     for n in SUBJECTS {
         total.floor(&format!("type:{}", n), 100);
         total.floor(&format!("special:{}", n), 20);
+    }
+    total.floor("via_clone_from", 500);
+    {
     }
     total
 }
